@@ -39,6 +39,10 @@ type Prop struct {
 	Post func(c *Ctx, cs Case)
 	// Config returns the scheduler limits for the case (may be nil).
 	Config func(cs Case) simrt.Config
+	// RaceMode: the property is only meaningful in a binary built with -race;
+	// RaceCompanion names the race-mode property a normal check also runs.
+	RaceMode      bool
+	RaceCompanion string
 	// BudgetIsViolation: a run ending on a step/simtime budget is a wedge.
 	BudgetIsViolation bool
 	// Runs per tier.
